@@ -149,6 +149,7 @@ class Facts:
         self.traits = {t['path']: t for t in self.j['traits']}
         self.unsafe_blocks = self.j['unsafe_blocks']
         self.foreign_fns = {f['path']: f for f in self.j['foreign_fns']}
+        self.foreign_adts = {f['path']: f for f in self.j.get('foreign_adts', [])}
         self._callers = None
         self._closures_of = None
 
